@@ -1,6 +1,7 @@
 ################################################################################
 # © Copyright 2022 Zapata Computing Inc.
 ################################################################################
+import os
 from typing import Any, Dict, List, Tuple
 
 import rapidjson as json
@@ -76,7 +77,7 @@ def load_operator(file: LoadSource) -> PauliSum:
         op: the operator.
     """
 
-    if isinstance(file, str):
+    if isinstance(file, (str, bytes, os.PathLike)):
         with open(file, "r") as f:
             data = json.load(f)
     else:
@@ -109,7 +110,7 @@ def load_operator_set(file: LoadSource) -> List[PauliSum]:
     Returns:
         operator_set: a list of QubitOperator objects
     """
-    if isinstance(file, str):
+    if isinstance(file, (str, bytes, os.PathLike)):
         with open(file, "r") as f:
             data = json.load(f)
     else:
